@@ -275,7 +275,7 @@ impl CaseDriver for Convert {
         let names: Vec<String> = family().iter().enumerate().map(|(i, s)| format!("{i}: {}", s.name)).collect();
         Describe {
             rule: format!(
-                "{} stacks ({}) x cell metals 1..=stack height x outline {} periods (a period box = lcm of the layer pitches per direction) — all free; then up to {} cuts, {} assignments and {} instance(s) chosen from the complete menus (cuts: every in-range crossing whose track layer is inside the cell's metals and whose crossing layer is adjacent in the stack; assignments: the same with both layers inside the cell's metals, second net equal or different; instances: a 1-metal or 2-metal child of one period box, or a 0-metal child of one primitive pitch (which must block nothing), at every primitive-pitch position (both directions, on or off the period grid of the layers it reaches) that keeps it inside the outline, in all 4 reflections), cut listing order normal / reversed, with at most {} departures from the empty cell in total (deviation bound). State = (stack, cell); non-trivial = at least one cut, assignment or instance.",
+                "{} stacks ({}) x cell metals 1..=stack height x outline {} periods (a period box = lcm of the layer pitches per direction) — all free; then up to {} cuts, {} assignments and {} instance(s) chosen from the complete menus (cuts: every in-range crossing whose track layer is inside the cell's metals and whose crossing layer is adjacent in the stack; assignments: the same with both layers inside the cell's metals, second net equal or different; instances: a 1-metal or 2-metal child of one period box, or a 0-metal child of one primitive pitch (which must block nothing), at every primitive-pitch position (both directions, on or off the period grid of the layers it reaches) that keeps it inside the outline, in all 4 reflections; a single instance optionally with a twin abutting it along x or along y), cut listing order normal / reversed, with at most {} departures from the empty cell in total (deviation bound). State = (stack, cell); non-trivial = at least one cut, assignment or instance.",
                 family().len(),
                 names.join("; "),
                 t.pick("{1,2} x {1,2}", "{1,2} x {1,2}, 3 x 1, 1 x 3"),
@@ -370,6 +370,20 @@ impl CaseDriver for Convert {
             }
             insts.push(im[from + k - 1].clone());
             from += k;
+        }
+        // a twin of the (only) instance right next to it, along x or along y, where it fits inside the outline: two
+        // instances within one period of the layers running that way
+        if insts.len() == 1 {
+            let tw = c.cost(3, "instance-twin");
+            if tw != 0 {
+                let i0 = insts[0].clone();
+                let ch = &children[i0.child];
+                let (dx, dy) = if tw == 1 { (ch.size.0, 0) } else { (0, ch.size.1) };
+                let twin = InstIn { child: i0.child, loc: (i0.loc.0 + dx, i0.loc.1 + dy), rh: i0.rh, rv: i0.rv };
+                if im.iter().any(|m| m.child == twin.child && m.loc == twin.loc && m.rh == twin.rh && m.rv == twin.rv) {
+                    insts.push(twin);
+                }
+            }
         }
         CaseD { stack: si, cell: CellIn { metals, size, cuts, assigns, insts }, children }
     }
